@@ -1,2 +1,300 @@
 #!/usr/bin/env python3
-"""placeholder; replaced below"""
+"""Source-facts extractor: regenerates lean/FlowCalModel/Generated.lean and
+extract/facts.json from /repo's current working tree (Python ast, no imports of
+FlowCal).  Facts extracted:
+  * sampleFields   : attributes assigned on the new object in FCSData.__new__
+  * finalizeFields : attributes copied in FCSData.__array_finalize__
+  * pickleFields   : _FCSDataPickleState.field_names
+  * reduceFields / setstateFields : fields packed in __reduce__ / restored in __setstate__
+  * getitemBranches: per branch of __getitem__, the attributes re-sliced
+  * writeSites     : in-place writes through parameters / internal-state aliases in public functions
+  * normalised-AST hashes of anchored functions (informational)
+"""
+import ast, hashlib, json, os, sys
+
+REPO = os.environ.get('FLOWCAL_REPO', '/repo')
+HERE = os.path.dirname(os.path.abspath(__file__))
+OUT_LEAN = os.path.join(os.path.dirname(HERE), 'lean', 'FlowCalModel', 'Generated.lean')
+OUT_JSON = os.path.join(HERE, 'facts.json')
+
+
+def parse(name):
+    return ast.parse(open(os.path.join(REPO, 'FlowCal', name)).read())
+
+
+def find_class(tree, name):
+    for n in tree.body:
+        if isinstance(n, ast.ClassDef) and n.name == name:
+            return n
+
+
+def find_func(node, name):
+    for n in node.body:
+        if isinstance(n, ast.FunctionDef) and n.name == name:
+            return n
+
+
+def attr_assign_targets(fn, obj_name):
+    """self._x = ... style assignments: returns attribute names in source order."""
+    res = []
+    for n in ast.walk(fn):
+        if isinstance(n, ast.Assign):
+            for t in n.targets:
+                if isinstance(t, ast.Attribute) and isinstance(t.value, ast.Name) and t.value.id == obj_name:
+                    res.append((n.lineno, t.attr))
+    res.sort()
+    out = []
+    for _, a in res:
+        if a not in out:
+            out.append(a)
+    return out
+
+
+def lean_list(xs):
+    return '[' + ', '.join('"%s"' % x for x in xs) + ']'
+
+
+def fhash(fn):
+    return hashlib.sha256(ast.dump(fn, annotate_fields=False, include_attributes=False).encode()).hexdigest()[:16]
+
+
+# ---- write-site analysis (C13) ---------------------------------------------
+MUTATORS = {'append', 'extend', 'insert', 'sort', 'reverse', 'update', 'pop', 'popitem', 'remove', 'clear',
+            'setdefault', 'fill', 'resize', 'partition', 'put', 'itemset', 'setflags', 'byteswap'}
+STATE_ACCESSORS = {'range', 'text', 'analysis', 'channels', 'resolution', 'amplification_type',
+                   'detector_voltage', 'amplifier_gain', 'channel_labels'}
+FRESH_CALLS = {'copy', 'deepcopy', 'astype', 'array', 'zeros', 'ones', 'zeros_like', 'ones_like', 'empty', 'empty_like',
+               'list', 'dict', 'tuple', 'set', 'sorted', 'linspace', 'logspace', 'arange', 'asarray_chkfinite',
+               'log10', 'log', 'exp', 'sqrt', 'concatenate', 'vstack', 'hstack', 'ravel_copy', 'tolist', 'reshape_copy',
+               'histogram', 'histogram2d', 'digitize', 'cumsum', 'argsort', 'mean', 'median', 'std', 'sum', 'tile',
+               'frompyfunc', 'namedtuple', 'partial', 'format', 'join', 'split', 'figure', 'gca', 'gcf', 'subplot',
+               'DataFrame', 'OrderedDict', 'transform_non_affine', 'hist_bins', 'inverted', 'view'}
+
+
+class Alias:
+    FRESH, PARAM, STATE, UNKNOWN = 'fresh', 'param', 'state', 'unknown'
+
+
+def classify(expr, env):
+    """Very small syntactic alias abstraction: what may `expr` point to?"""
+    if isinstance(expr, ast.Name):
+        return env.get(expr.id, (Alias.UNKNOWN, expr.id))
+    if isinstance(expr, ast.Call):
+        f = expr.func
+        if isinstance(f, ast.Attribute):
+            if f.attr == 'view':
+                return classify(f.value, env)      # a view aliases its base buffer
+            if f.attr in FRESH_CALLS:
+                return (Alias.FRESH, f.attr)
+            if f.attr in STATE_ACCESSORS:
+                base = classify(f.value, env)
+                if base[0] in (Alias.PARAM, Alias.STATE):
+                    return (Alias.STATE, '%s.%s()' % (base[1], f.attr))
+            return (Alias.FRESH, 'call')
+        if isinstance(f, ast.Name):
+            return (Alias.FRESH, f.id)
+        return (Alias.FRESH, 'call')
+    if isinstance(expr, ast.Subscript):
+        base = classify(expr.value, env)
+        # basic slicing of a numpy array gives a view; indexing a list gives the element
+        if base[0] in (Alias.PARAM, Alias.STATE):
+            return (base[0], base[1] + '[...]')
+        return base
+    if isinstance(expr, ast.Attribute):
+        base = classify(expr.value, env)
+        if base[0] in (Alias.PARAM, Alias.STATE):
+            return (Alias.STATE if expr.attr.startswith('_') or expr.attr in STATE_ACCESSORS else base[0], base[1] + '.' + expr.attr)
+        return base
+    if isinstance(expr, (ast.List, ast.Tuple, ast.Dict, ast.ListComp, ast.DictComp, ast.SetComp, ast.GeneratorExp,
+                         ast.BinOp, ast.UnaryOp, ast.Compare, ast.BoolOp, ast.Constant, ast.JoinedStr, ast.Lambda)):
+        return (Alias.FRESH, type(expr).__name__)
+    if isinstance(expr, ast.IfExp):
+        a, b = classify(expr.body, env), classify(expr.orelse, env)
+        for c in (a, b):
+            if c[0] != Alias.FRESH:
+                return c
+        return a
+    return (Alias.UNKNOWN, type(expr).__name__)
+
+
+def root_name(t):
+    while isinstance(t, (ast.Subscript, ast.Attribute)):
+        t = t.value
+    return t.id if isinstance(t, ast.Name) else None
+
+
+def write_sites(modname, tree):
+    sites = []
+
+    def visit_fn(fn, qual):
+        params = [a.arg for a in fn.args.args + fn.args.kwonlyargs]
+        if fn.args.vararg:
+            params.append(fn.args.vararg.arg)
+        if fn.args.kwarg:
+            params.append(fn.args.kwarg.arg)
+        env = {p: (Alias.PARAM, p) for p in params}
+
+        def record(kind, target, lineno):
+            cls = classify(target, env)
+            if cls[0] in (Alias.PARAM, Alias.STATE):
+                sites.append({'module': modname, 'function': qual, 'kind': kind,
+                              'target': cls[1], 'alias': cls[0]})
+
+        def walk(stmts):
+            for s in stmts:
+                if isinstance(s, (ast.FunctionDef, ast.ClassDef)):
+                    continue
+                if isinstance(s, ast.Assign):
+                    for t in s.targets:
+                        if isinstance(t, (ast.Subscript, ast.Attribute)):
+                            record('store', t.value, s.lineno)
+                        elif isinstance(t, ast.Name):
+                            env[t.id] = classify(s.value, env)
+                        elif isinstance(t, ast.Tuple):
+                            for e in t.elts:
+                                if isinstance(e, ast.Name):
+                                    env[e.id] = (Alias.FRESH, 'unpack')
+                elif isinstance(s, ast.AugAssign):
+                    if isinstance(s.target, (ast.Subscript, ast.Attribute)):
+                        record('augstore', s.target.value, s.lineno)
+                    elif isinstance(s.target, ast.Name):
+                        c = env.get(s.target.id)
+                        if c and c[0] in (Alias.PARAM, Alias.STATE):
+                            record('augassign', s.target, s.lineno)
+                elif isinstance(s, ast.Expr) and isinstance(s.value, ast.Call):
+                    f = s.value.func
+                    if isinstance(f, ast.Attribute) and f.attr in MUTATORS:
+                        record('call.' + f.attr, f.value, s.lineno)
+                elif isinstance(s, ast.Delete):
+                    for t in s.targets:
+                        if isinstance(t, (ast.Subscript, ast.Attribute)):
+                            record('delete', t.value, s.lineno)
+                if isinstance(s, ast.For):
+                    it = classify(s.iter, env)
+                    if isinstance(s.target, ast.Name):
+                        env[s.target.id] = (it[0], it[1] + '[i]') if it[0] in (Alias.PARAM, Alias.STATE) else (Alias.FRESH, 'iter')
+                    elif isinstance(s.target, ast.Tuple):
+                        for e in s.target.elts:
+                            if isinstance(e, ast.Name):
+                                env[e.id] = (Alias.FRESH, 'iter')
+                for fld in ('body', 'orelse', 'finalbody'):
+                    if hasattr(s, fld):
+                        walk(getattr(s, fld))
+                if isinstance(s, ast.Try):
+                    for h in s.handlers:
+                        walk(h.body)
+                if isinstance(s, ast.With):
+                    pass
+        walk(fn.body)
+
+    for n in tree.body:
+        if isinstance(n, ast.FunctionDef) and not n.name.startswith('_'):
+            visit_fn(n, n.name)
+        elif isinstance(n, ast.ClassDef):
+            for m in n.body:
+                if isinstance(m, ast.FunctionDef):
+                    visit_fn(m, n.name + '.' + m.name)
+    # canonical, order independent, duplicates removed
+    uniq = []
+    for s in sites:
+        if s not in uniq:
+            uniq.append(s)
+    uniq.sort(key=lambda s: (s['module'], s['function'], s['kind'], s['target']))
+    return uniq
+
+
+def main():
+    io = parse('io.py')
+    cls = find_class(io, 'FCSData')
+    new = find_func(cls, '__new__')
+    fin = find_func(cls, '__array_finalize__')
+    red = find_func(cls, '__reduce__')
+    sst = find_func(cls, '__setstate__')
+    getitem = find_func(cls, '__getitem__')
+
+    sample_fields = [a for a in attr_assign_targets(new, 'obj')]
+    finalize_fields = attr_assign_targets(fin, 'self')
+    setstate_fields = attr_assign_targets(sst, 'self')
+    pickle_fields = []
+    for n in io.body:
+        if isinstance(n, ast.Assign) and any(isinstance(t, ast.Name) and t.id == '_FCSDataPickleState' for t in n.targets):
+            for kw in n.value.keywords:
+                if kw.arg == 'field_names':
+                    pickle_fields = [e.value for e in kw.value.elts]
+    reduce_fields = []   # (field, attribute) pairs in the _FCSDataPickleState(...) call
+    for n in ast.walk(red):
+        if isinstance(n, ast.Call) and isinstance(n.func, ast.Name) and n.func.id == '_FCSDataPickleState':
+            for kw in n.keywords:
+                v = kw.value
+                reduce_fields.append((kw.arg, v.attr if isinstance(v, ast.Attribute) else '?'))
+    setstate_pairs = []  # (attribute, field)
+    for n in ast.walk(sst):
+        if isinstance(n, ast.Assign) and isinstance(n.targets[0], ast.Attribute) and isinstance(n.value, ast.Attribute):
+            setstate_pairs.append((n.targets[0].attr, n.value.attr))
+    # getitem branches: for each If branch body inside the first branch, which attributes are reassigned and from which
+    branches = []
+    for n in ast.walk(getitem):
+        if isinstance(n, ast.If):
+            for body in (n.body, n.orelse):
+                pairs = []
+                for s in body:
+                    if isinstance(s, ast.Assign) and isinstance(s.targets[0], ast.Attribute) \
+                            and isinstance(s.targets[0].value, ast.Name) and s.targets[0].value.id == 'new_arr':
+                        srcs = sorted({a.attr for a in ast.walk(s.value) if isinstance(a, ast.Attribute)
+                                       and isinstance(a.value, ast.Name) and a.value.id == 'new_arr'})
+                        pairs.append((s.targets[0].attr, srcs))
+                if len(pairs) >= 3:
+                    branches.append(pairs)
+    trees = {m: parse(m + '.py') for m in ('io', 'transform', 'gate', 'stats', 'mef', 'plot', 'excel_ui')}
+    ws = []
+    for m in ('io', 'transform', 'gate', 'stats', 'mef', 'plot'):
+        ws.extend(write_sites(m, trees[m]))
+
+    hashes = {}
+    for m, t in trees.items():
+        for n in t.body:
+            if isinstance(n, ast.FunctionDef):
+                hashes['%s.%s' % (m, n.name)] = fhash(n)
+            elif isinstance(n, ast.ClassDef):
+                for f in n.body:
+                    if isinstance(f, ast.FunctionDef):
+                        hashes['%s.%s.%s' % (m, n.name, f.name)] = fhash(f)
+
+    strip = lambda xs: [x.lstrip('_') for x in xs]
+    facts = {
+        'sampleFields': strip(sample_fields), 'finalizeFields': strip(finalize_fields),
+        'pickleFields': pickle_fields, 'setstateFields': strip(setstate_fields),
+        'reduceFields': [[a, b.lstrip('_')] for a, b in reduce_fields],
+        'setstatePairs': [[a.lstrip('_'), b] for a, b in setstate_pairs],
+        'getitemBranches': [[[a.lstrip('_'), [x.lstrip('_') for x in b]] for a, b in br] for br in branches],
+        'writeSites': ws, 'hashes': hashes,
+        'summary': {'sampleFields': len(sample_fields), 'finalizeFields': len(finalize_fields),
+                    'pickleFields': len(pickle_fields), 'writeSites': len(ws), 'functions_hashed': len(hashes)},
+    }
+    json.dump(facts, open(OUT_JSON, 'w'), indent=1)
+
+    L = []
+    L.append('/-! GENERATED by extract/facts.py from /repo on every run. Do not edit. -/')
+    L.append('namespace FlowCal.Generated')
+    L.append('def sampleFields : List String := ' + lean_list(facts['sampleFields']))
+    L.append('def finalizeFields : List String := ' + lean_list(facts['finalizeFields']))
+    L.append('def pickleFields : List String := ' + lean_list(facts['pickleFields']))
+    L.append('def setstateFields : List String := ' + lean_list(facts['setstateFields']))
+    L.append('def reduceFields : List (String × String) := [' + ', '.join('("%s", "%s")' % (a, b) for a, b in facts['reduceFields']) + ']')
+    L.append('def setstatePairs : List (String × String) := [' + ', '.join('("%s", "%s")' % (a, b) for a, b in facts['setstatePairs']) + ']')
+    L.append('def getitemBranches : List (List (String × List String)) := [' + ', '.join(
+        '[' + ', '.join('("%s", %s)' % (a, lean_list(b)) for a, b in br) + ']' for br in facts['getitemBranches']) + ']')
+    L.append('structure WriteSite where\n  module : String\n  function : String\n  kind : String\n  target : String\n  deriving DecidableEq, Repr')
+    L.append('def writeSites : List WriteSite := [' + ',\n  '.join(
+        '⟨"%s", "%s", "%s", "%s"⟩' % (w['module'], w['function'], w['kind'], w['target'].replace('"', "'")) for w in ws) + ']')
+    L.append('end FlowCal.Generated')
+    new_src = '\n'.join(L) + '\n'
+    old = open(OUT_LEAN).read() if os.path.exists(OUT_LEAN) else None
+    if old != new_src:
+        os.makedirs(os.path.dirname(OUT_LEAN), exist_ok=True)
+        open(OUT_LEAN, 'w').write(new_src)
+    return 0
+
+
+if __name__ == '__main__':
+    sys.exit(main())
